@@ -25,7 +25,9 @@ def mesh1d(rng, kind=None, ncell=None, nmin=3, nmax=24, x0=True):
     if kind == "uni":
         xo = float(np.round(rng.uniform(-2, 2), 3)) if x0 else 0.0
         d["x0"] = xo
-        return fmesh.unimesh(ncell=nc, length=L, x0=xo), d
+        cls = fmesh.unimesh if rng.random() < 0.5 else fmesh.mesh1d          # alias and base class
+        d["class"] = cls.__name__
+        return cls(ncell=nc, length=L, x0=xo), d
     if kind == "refined":
         ratio = float(np.round(rng.uniform(0.3, 3.0), 3))
         a, b = int(rng.integers(1, 4)), int(rng.integers(1, 4))
@@ -62,7 +64,8 @@ def mesh_from_faces(xf):
 def mesh2d(rng, nmax=6, nmin=1):
     nx, ny = int(rng.integers(nmin, nmax + 1)), int(rng.integers(nmin, nmax + 1))
     lx, ly = float(np.round(rng.uniform(0.5, 4.0), 3)), float(np.round(rng.uniform(0.5, 4.0), 3))
-    return fmesh2d.mesh2d(nx, ny, lx, ly), {"nx": nx, "ny": ny, "lx": lx, "ly": ly}
+    cls = fmesh2d.mesh2d if rng.random() < 0.6 else fmesh2d.unimesh
+    return cls(nx, ny, lx, ly), {"nx": nx, "ny": ny, "lx": lx, "ly": ly, "class": cls.__name__}
 
 
 # ----------------------------------------------------------------------------- reconstructions
@@ -206,9 +209,9 @@ def fdata_prim(model, mesh, prim):
 FLUXES = {
     "convection": [None],
     "burgers": [None],
-    "shallowwater": ["centered", "rusanov", "hll", None],          # None = the model's default flux (rusanov / hllc)
-    "euler1d": ["centered", "centeredmassflow", "hlle", "hllc", None],
-    "nozzle": ["centered", "centeredmassflow", "hlle", "hllc", None],
+    "shallowwater": ["centered", "rusanov", "hll", None, "centeredflux"],          # None = the model's default flux (rusanov / hllc)
+    "euler1d": ["centered", "centeredmassflow", "hlle", "hllc", None, "centeredflux"],   # 'centeredflux' = registered alias of 'centered'
+    "nozzle": ["centered", "centeredmassflow", "hlle", "hllc", None, "centeredflux"],
 }
 UPWIND_FLUXES = {"convection": [None], "burgers": [None], "shallowwater": ["rusanov", "hll", None],
                  "euler1d": ["hlle", "hllc", None], "nozzle": ["hlle", "hllc", None]}
@@ -282,7 +285,8 @@ def _make_model(mname, rng, source=None, gamma=None, g=None, a=None, section=Non
         return shw.shallowwater1d(g=g, source=source), {"g": g}
     gam = float(gamma if gamma is not None else rng.choice([1.4, 1.4, 5.0 / 3.0, 1.2, float(np.round(rng.uniform(1.05, 2.0), 3))]))
     if mname == "euler1d":
-        return euler.euler1d(gamma=gam, source=source), {"gamma": gam}
+        cls = euler.euler1d if rng.random() < 0.7 else euler.model          # backward-compatibility alias class
+        return cls(gamma=gam, source=source), {"gamma": gam, "class": cls.__name__}
     if mname == "nozzle":
         sec = section if section is not None else (lambda x: 1.0 + 0.0 * x)
         return euler.nozzle(sec, gamma=gam, source=source), {"gamma": gam, "section": getattr(sec, "desc", "const 1")}
@@ -378,7 +382,8 @@ def scenario1d(rng, models=MODELS1D, bc=None, recons=ALL_RECONS, meshkinds=MESH_
     s.warm = bool(rng.random() < 0.25) if warm is None else bool(warm)
     if s.warm and source is None and section is None:
         _warm_up(rng, s, bc, mach_max, ratio)
-    s.disc = md.fvm(s.model, s.mesh, s.num, numflux=s.flux, bcL=s.bcL, bcR=s.bcR)
+    dcls = md.fvm if rng.random() < 0.7 else md.fvm1d                     # alias and base class
+    s.disc = dcls(s.model, s.mesh, s.num, numflux=s.flux, bcL=s.bcL, bcR=s.bcR)
     s.field = fdata_prim(s.model, s.mesh, s.prim)
     return s
 
